@@ -44,6 +44,8 @@ enum WinAct {
     CloseReopen,
     /// advance the clock beyond the window's expiry
     Expire,
+    /// the window is closed and another one is opened with another passcode
+    CloseReopenOtherPasscode,
 }
 
 #[derive(Clone, Debug)]
@@ -77,6 +79,8 @@ struct Summary {
     wire: Vec<Dgram>,
     /// (virtual time, window open?) whenever a PASE session came into existence at R
     r_session_births: Vec<(u64, bool)>,
+    /// sessions born after the window was replaced by one with a passcode nobody tried
+    births_under_replaced_window: usize,
     window_open_at_end: bool,
     failures_at_end: u8,
     max_failures_seen: u8,
@@ -180,6 +184,7 @@ fn run(spec: &RunSpec, other_wire: Option<&[Dgram]>) -> Result<Summary, String> 
     w.exec.run()?;
     let mut seen: Vec<(usize, u8, u32)> = Vec::new();
     let (mut applied, mut win_applied) = (false, false);
+    let mut other_window = false;
     let mut quiet: Option<u64> = None;
     let mut out = Summary::default();
     let clients = if spec.second_initiator { 2 } else { 1 };
@@ -223,6 +228,18 @@ fn run(spec: &RunSpec, other_wire: Option<&[Dgram]>) -> Result<Summary, String> 
                                     let _ = mr.close_comm_window(&());
                                     let c = nodes::crypto(SeededRng::new(spec.seed + 77));
                                     let _ = mr.open_basic_comm_window(WINDOW_SECS, &c, &());
+                                }
+                                WinAct::CloseReopenOtherPasscode => {
+                                    let _ = mr.close_comm_window(&());
+                                    let other: rs_matter::BasicCommData = rs_matter::BasicCommData { password: 87654322u32.to_le_bytes().into(), discriminator: 250 };
+                                    let r = mr.with_state(|s| {
+                                        let (_, _, pase) = s.verif_failsafe_and_fabrics();
+                                        pase.open_basic_comm_window(0x1234_5678_9abc, &[0x5c; 16], other.password.reference(), 250, WINDOW_SECS, None, || {}, |_, _| {})
+                                    });
+                                    if let Err(e) = r {
+                                        return Err(format!("harness: opening the second window failed: {:?}", e.code()));
+                                    }
+                                    other_window = true;
                                 }
                                 WinAct::Expire => {
                                     vclock::advance_by_ms((WINDOW_SECS as u64 + 1) * 1000);
@@ -272,6 +289,9 @@ fn run(spec: &RunSpec, other_wire: Option<&[Dgram]>) -> Result<Summary, String> 
         let n = pase_sessions(mr).len();
         if n > known_r_sessions {
             out.r_session_births.push((vclock::now(), window_open(mr)));
+            if other_window {
+                out.births_under_replaced_window += 1;
+            }
         }
         known_r_sessions = n;
         let f = mr.with_state(|s| s.verif_pase().verif_state().1);
@@ -341,6 +361,9 @@ fn judge(spec: &RunSpec, s: &Summary) -> Vec<(String, String)> {
             v.push((format!("C02:session-created-while-no-window-is-open:{}", tag), format!("a PASE session appeared at the device at {} us with no commissioning window open", t - START_US)));
         }
     }
+    if s.births_under_replaced_window > 0 {
+        v.push((format!("C02:session-for-the-passcode-of-a-window-that-was-replaced:{}", tag), format!("{} PASE session(s) appeared after the window the handshake started under was closed and another window with another passcode was opened", s.births_under_replaced_window)));
+    }
     // (ii) never more sessions than handshakes with the right passcode; none at all without a window or with only wrong passcodes
     let max_ok = if spec.window_at_start { right * if spec.second_initiator { 2 } else { 1 } } else { 0 };
     if rs.len() > max_ok {
@@ -402,6 +425,7 @@ fn replay(ctx: &Ctx, path: &std::path::Path) -> i32 {
         } else {
             Some((tgt(&r["window_action"]), match r["window_action"]["action"].as_str() {
                 Some("CloseReopen") => WinAct::CloseReopen,
+                Some("CloseReopenOtherPasscode") => WinAct::CloseReopenOtherPasscode,
                 Some("Expire") => WinAct::Expire,
                 _ => WinAct::Close,
             }))
@@ -502,7 +526,7 @@ pub fn run_check(ctx: &Ctx) -> i32 {
     // (c) window actions before each handshake datagram
     let drops: Vec<Target> = cat.iter().filter(|(_, m)| *m == Mutn::Drop).map(|(t, _)| t.clone()).collect();
     for t in &drops {
-        for a in [WinAct::Close, WinAct::CloseReopen, WinAct::Expire] {
+        for a in [WinAct::Close, WinAct::CloseReopen, WinAct::Expire, WinAct::CloseReopenOtherPasscode] {
             specs.push(RunSpec { window_action: Some((t.clone(), a.clone())), ..base.clone() });
             specs.push(RunSpec { window_action: Some((t.clone(), a.clone())), second_initiator: true, ..base.clone() });
             if !quick {
